@@ -16,19 +16,19 @@ NOTE = ("Trusted: TLC, the harness driver (worker processes, sentinel buffers, c
 
 CLAIMED = {
  "C03": ("model_checking", "6", "TLC: C03_ReadInBuffer/SubIndex/LoadFits on AsyncPos, C03_InBuffer on FftBlocks; trace predicate C03_CallOk on real runs built with debug-assertions+overflow-checks in worker processes (abort/panic/Err are data)."),
- "C04": ("model_checking", "6", "TLC: C04_Bounds/Written/Delivers on the models; trace predicates C04_Bounds, C04_Consumed, C04_Written (sentinel-filled buffers of exactly the advertised size and of the maximum size)."),
+ "C04": ("model_checking", "6", "TLC: C04_Bounds/Written/Delivers on the models and the refinement AsyncPos/FftBlocks => Abstract.tla (PROPERTY Refines: every step of the transcribed code is a step the generative contract allows); trace predicates C04_Bounds, C04_Consumed, C04_Written (sentinel-filled buffers of exactly the advertised size and of the maximum size), C04_LifeBounds (what is needed now never exceeds ANY maximum advertised earlier) and C04_Allocate (lengths/capacities of input/output_buffer_allocate at arbitrary history points)."),
  "C06": ("model_checking", "6", "TLC: C06_Supplied (content model: every cell read holds the frame it should) on AsyncPos; trace predicates C06_Increasing/StepInRange/RampMonotone/Supplied on evaluation instants observed through the index signal and a probing SincInterpolator."),
- "C07": ("model_checking", "6", "TLC: drift is a bounded function of the parked position (C07_NoDrift, PosBounded; C07_Drift/DriftIsSaved/Blocks with no depth bound on FftBlocks = unbounded streams); trace predicates C07_NoDrift/FftExact/FftBlock on running sums."),
+ "C07": ("model_checking", "6", "TLC: drift is a bounded function of the parked position (C07_NoDrift, PosBounded; C07_Drift/DriftIsSaved/Blocks with no depth bound on FftBlocks = unbounded streams) and the refinement into Abstract.tla; trace predicates C07_NoDrift (at any steady ratio: the constructor's or one set before the stream starts), C07_FftExact, C07_FftBlock on running sums, 1-frame chunks included."),
  "C09": ("model_checking", "6", "Trace predicate C09_NoHeap (per-thread counting global allocator sampled around each call) on every real-time-safe action at every history point TLC enumerates plus seeded histories."),
- "C12": ("model_checking", "6", "Trace predicates C12_RatioDomain (TLC recomputes the range test bit-exactly from the f64 words of argument and bounds), C12_RejectNoop, C12_ChunkDomain, C12_ChunkEffect over argument classes x history points."),
- "C13": ("model_checking", "6", "Trace predicates C13_ErrVariant (TLC derives the set of faults of the call shape), C13_Untouched, C13_Ctor; malformed calls injected at every model history point and in seeded histories."),
- "C14": ("model_checking", "6", "Trace predicates C14_Delay (instants vs reported delay, cleared of fractions) and C14_Peak (impulse position through real sinc kernels and the FFT resamplers)."),
+ "C12": ("model_checking", "6", "Trace predicates C12_RatioDomain (TLC recomputes the range test bit-exactly from the f64 words of argument and bounds), C12_RejectNoop, C12_ChunkDomain, C12_ChunkEffect and C06_StepInRange (the spacing after an accepted change is the one of original*x) over argument classes x history points; TraceTwin: an instance that also receives rejected setters vs a twin that never saw them (TwinFull), relative vs absolute setter twins (TwinCtl)."),
+ "C13": ("model_checking", "6", "TLC on Shapes.tla enumerates EVERY call shape (channel counts, mask length/values, per-channel lengths: 22 940 cases for 2 channels) and checks the transcribed decision of validate_buffers against the fault-set contract; the cases are executed against the code. Trace predicates C13_ErrVariant (TLC derives the set of faults of the observed shape), C13_Untouched, C13_Ctor; malformed calls (with and without well-formed masks) at model history points and in seeded histories; TraceTwin TwinFull against a twin that never saw the failed calls."),
+ "C14": ("model_checking", "6", "Trace predicates C14_Delay (instants vs reported delay, cleared of fractions; at the constructor's ratio and at ratios set before the stream starts, extremes of the adjustable range included) and C14_Peak (impulse position through real sinc kernels and the FFT resamplers)."),
  "C08": ("model_checking", "6", "TLC on Kernels.tla proves (exact integers) that the transcribed coefficient tables of interp_septic/quintic/cubic/lin are the Lagrange cardinals of their node sets (hence the unique interpolant); TraceTwin predicate TwinPoly binds the tables and the window selection to the code: one-hot inputs through FastFixedIn/Out at dyadic phase grids must equal the cardinal polynomial evaluated by TLC in fixed point. Discrete core only; the rounding-level clause (polynomials of admissible degree reproduced to rounding at arbitrary ratios/chunkings, f32 and f64) is GUARDED: the driver measures |out - p(instant)| in units of eps*max|p| and TLC (TwinNear) compares with a bound of 128 units (largest value measured on the unchanged tree: 12)."),
  "C15": ("model_checking", "6", "TLC on Kernels.tla executes every kernel's loop and horizontal reduction (scalar, AVX, SSE, NEON; f32/f64) on symbolic products and proves each tap of the window is paired exactly once with its wave sample (C15_LoopPairs, C15_ResultExact) and the make_sincs re-indexing (C15_BranchDelay); TraceTwin predicate KernelEq binds it to the code through one-hot waves (bit-identical to the scalar kernel, zero outside the window, every slice alignment), TwinCtl/TwinNear compare resamplers built on each kernel with the dispatched one. Discrete core; summation-order rounding is a guard. NEON is model-only on this host."),
  "C05": ("model_checking", "6", "TLC: content-model invariants (Contiguous, C06_Supplied) under every chunk schedule on the models; TraceTwin predicates TwinBlocks (FFT adapters / (chunk, sub) pairs resolving to one block size: bit-identical block digests) and TwinTaus (async: identical evaluation instants across chunk sizes, set_chunk_size schedules and FixedIn/FixedOut)."),
  "C10": ("model_checking", "6", "TLC: action property C10_ResetIsInit on AsyncPos/FftBlocks from every reachable state; TraceTwin predicate TwinFull between a used-then-reset instance (history = every reachable model state, plus seeded histories with ramps, masks, failed calls, partial calls) and a fresh twin: identical getters, counts and bit-identical digests."),
  "C11": ("model_checking", "6", "TraceTwin predicates TwinChan (channel c of an n-channel instance vs a one-channel twin, bit-identical) and TwinCtl (masked vs unmasked counts/getters), Contract predicate C11_MaskUntouched (sentinel-filled masked outputs, empty slices for masked channels), n in 1..8, constant masks incl. all-false."),
- "C16": ("model_checking", "6", "TraceTwin predicate TwinFull between an instance driven through process()/process_partial()/process_partial_into_buffer()/VecResampler and a twin driven through process_into_buffer on the zero-padded input, at every model history point and in seeded histories."),
+ "C16": ("model_checking", "6", "TLC on Shapes.tla enumerates every (mask, per-channel length) case of the partial wrapper; each is executed. TraceTwin predicate TwinFull between an instance driven through process()/process_partial()/process_partial_into_buffer()/VecResampler (ragged channel lengths, empty slices for masked channels) and a twin driven through process_into_buffer on the zero-padded input, at model history points and in seeded histories; Contract predicates C16_Flush (repeated None calls push the tail out) and C16_VecForward (VecResampler forwards getters/allocators/setters unchanged)."),
  "C17": ("model_checking", "6", "TraceTwin predicate TwinCtl between f32 and f64 instances on identical histories (results, counts, all getters). The numeric half of C17 (outputs within a small multiple of f32 epsilon of the signal peak) cannot be decided by a TLA+ specification; it is GUARDED: the driver measures the largest f32-f64 difference of every call in units of epsilon*peak and TLC (TwinNear) compares it with a bound fixed at about 8x the largest value measured on the unchanged tree (64+4*sinc_len sinc, 64 polynomial, 256 FFT)."),
  "C18": ("model_checking", "6", "TLC on Fleet.tla (Isolation invariant, Diamond action property) enumerates every interleaving/migration schedule of N instances x M threads x K calls; each schedule is executed with real OS threads (independent steps truly concurrent, constructors racing) and TraceTwin predicate TwinFull compares every instance with its single-threaded reference, bit-identically."),
 }
